@@ -27,7 +27,7 @@ def semver(r):
     if r.random() < 0.4:
         s += "-" + ".".join(ident(r) for _ in range(r.randint(1, 3)))
     if r.random() < 0.2:
-        s += "+" + ".".join(r.choice(["build", "1", "001", "sha.5114f85", "b2"]) for _ in range(r.randint(1, 2)))
+        s += "+" + ".".join(r.choice(["build", "1", "001", "sha.5114f85", "b2", "incompatible", "Build", "7", "007"]) for _ in range(r.randint(1, 2)))
     return s
 
 
@@ -251,3 +251,81 @@ def ladder(r, cls, length, pool_size=None):
         if not (a < b and b > a and not (b < a) and a != b and not (a == b) and a <= b and b >= a and not (a >= b) and not (b <= a)):
             return None
     return lad
+
+
+# ---------------------------------------------------------------- near pairs
+SUFFIX_DICT = {
+    "SemverVersion": ["-alpha", "-beta", "-rc1", "-rc.1", "-RC1", "+7", "+007", "+build", "+Build", "+incompatible", "-0", "-1", ".0", "-alpha.1", "-alpha.beta", "-a.b"],
+    "PypiVersion": [".0", "a1", "b2", "rc1", ".post1", ".dev1", "+local", "+LOCAL", "-1", ".post", "a", "0"],
+    "DebianVersion": ["~", "~~", "+", "-0", "-1", "a", "~rc1", "+b1", ".0", "0", "-", ".", "-0ubuntu1"],
+    "RpmVersion": ["~", "^", "~rc1", "^git1", "-1", "_", ".0", "a", "0", "~~", "^^", ".a"],
+    "ArchLinuxVersion": ["-1", "-2", "a", ".a", "_1", ".0", "+", "rc1", ".rc1", "0"],
+    "GentooVersion": ["_alpha", "_beta", "_pre", "_rc", "_p", "_alpha1", "_rc2", "_p0", "_p1", "-r0", "-r1", "-r3", "a", "b", ".0", "0", ".01", ".010"],
+    "MavenVersion": ["-alpha", "-beta", "-rc", "-sp", "-ga", "-final", ".0", "-1", "-SNAPSHOT", "-a1", "-b", ".ga", "-cr1", "-x"],
+    "RubygemsVersion": [".0", ".a", ".b1", "-1", ".rc1", ".pre", "a", ".0.0"],
+    "NugetVersion": ["-alpha", "-Alpha", "-beta.1", "+b", "+B", ".0", ".1", "-rc"],
+    "ConanVersion": ["-alpha", "-beta", "+1", "+2", ".0", ".1", "-rc.1"],
+    "LegacyOpensslVersion": ["a", "b", "z", "za", "-beta1", "-beta2", "-beta10", "-alpha1", "-pre1"],
+}
+for _k in ("GolangVersion", "ComposerVersion", "NginxVersion"):
+    SUFFIX_DICT[_k] = SUFFIX_DICT["SemverVersion"]
+SUFFIX_DICT["AlpineLinuxVersion"] = SUFFIX_DICT["GentooVersion"]
+SUFFIX_DICT["OpensslVersion"] = SUFFIX_DICT["LegacyOpensslVersion"] + SUFFIX_DICT["SemverVersion"][:6]
+SUFFIX_DICT["GenericVersion"] = [".0", "a", "-1"]
+
+
+def neighbours(r, cls, s, k=3):
+    """up to k valid single-edit neighbours of the version text s (number +-1, x10, leading zero,
+    separator swapped, suffix added/removed/renamed, segment appended)"""
+    import re
+
+    out = []
+    sfx = SUFFIX_DICT.get(cls.__name__, [".0"])
+    for _ in range(k * 6):
+        t = s
+        kind = r.randrange(7)
+        nums = list(re.finditer(r"\d+", t))
+        if kind == 0 and nums:
+            m = r.choice(nums)
+            t = t[: m.start()] + str(int(m.group()) + 1) + t[m.end():]
+        elif kind == 1 and nums:
+            m = r.choice(nums)
+            t = t[: m.start()] + m.group() + "0" + t[m.end():]
+        elif kind == 2 and nums:
+            m = r.choice(nums)
+            t = t[: m.start()] + "0" + m.group() + t[m.end():]
+        elif kind == 3:
+            t = t + r.choice(sfx)
+        elif kind == 4:
+            for x in sorted(sfx, key=len, reverse=True):
+                if t.endswith(x) and len(t) > len(x):
+                    t = t[: -len(x)] + (r.choice(sfx) if r.random() < 0.5 else "")
+                    break
+        elif kind == 5:
+            seps = [i for i, c in enumerate(t) if c in ".-_+~"]
+            if seps:
+                i = r.choice(seps)
+                t = t[:i] + r.choice(".-_+~") + t[i + 1:]
+        else:
+            t = t.swapcase() if any(c.isalpha() for c in t) else t + ".1"
+        if t == s:
+            continue
+        try:
+            out.append(cls(t))
+        except Exception:
+            continue
+        if len(out) >= k:
+            break
+    return out
+
+
+def near_pool(r, cls, n, gen=None):
+    """a pool of valid versions where every base version comes with 1-3 near neighbours"""
+    base = valid_pool(r, cls, max(2, n // 3), gen=gen)
+    out = []
+    for v in base:
+        out.append(v)
+        out.extend(neighbours(r, cls, v.string, k=r.randint(1, 3)))
+        if len(out) >= n:
+            break
+    return out[:n]
